@@ -35,6 +35,12 @@ def make_stub(log, module, name):
                            "__eq__": lambda a, b: type(a) is type(b), "__hash__": lambda a: 0})
 
 
+import copyreg  # noqa: E402
+for _code, _name in ((240, "factory"), (241, "factory2"), (70000, "factory4")):
+    if ("verif_ext_mod", _name) not in copyreg._extension_registry:
+        copyreg.add_extension("verif_ext_mod", _name, _code)
+
+
 class RefVM(pickle._Unpickler):
     def __init__(self, data):
         super().__init__(io.BytesIO(data))
@@ -203,6 +209,17 @@ def corpus():
         P.append((f"{nm}_dup_memo", g("os", "getenv") + [op("DUP"), op("PUT", 3), op("POP"), u("HOME"), op("TUPLE1"), op("REDUCE"), op("GET", 3), op("TUPLE2"), op("STOP")]))
     P.append(("dotted_collision_a", [op("PROTO", 4)] + SG("os", "path.join") + SG("os.path", "join") + [op("TUPLE2"), op("STOP")]))
     P.append(("dotted_collision_b", [op("PROTO", 4)] + SG("pkg.sub", "run") + SG("pkg", "sub.run") + [op("TUPLE2"), op("STOP")]))
+    # MEMOIZE stores at len(memo), whatever keys explicit PUTs used before: sparse keys make the two notions of "next key" differ
+    P.append(("memoize_overwrites_sparse_put", [op("PROTO", 4), u("first"), op("BINPUT", 1), u("second"), op("MEMOIZE"), op("BINGET", 1), op("TUPLE3"), op("STOP")]))
+    P.append(("memoize_after_put5", [op("PROTO", 4), op("BININT1", 10), op("BINPUT", 5), op("BININT1", 20), op("MEMOIZE"), op("BINGET", 1), op("BINGET", 5), op("TUPLE"), op("STOP")][0:1]
+              + [op("MARK"), op("BININT1", 10), op("BINPUT", 5), op("BININT1", 20), op("MEMOIZE"), op("BINGET", 1), op("BINGET", 5), op("TUPLE"), op("STOP")]))
+    P.append(("memoize_swaps_callee", [op("PROTO", 4)] + G("collections", "OrderedDict") + [op("BINPUT", 1), op("POP")] + G("os", "getcwd")
+              + [op("MEMOIZE"), op("POP"), op("BINGET", 1), op("EMPTY_TUPLE"), op("REDUCE"), op("STOP")]))
+    # the extension registry (EXT1 / EXT2 / EXT4): the VM resolves a global the pickle does not name — registered below for this process
+    P.append(("ext1_resolved", [op("PROTO", 2), op("EXT1", 240), op("STOP")]))
+    P.append(("ext1_called", [op("PROTO", 2), op("EXT1", 240), one, op("TUPLE1"), op("REDUCE"), op("STOP")]))
+    P.append(("ext2_called", [op("PROTO", 2), op("EXT2", 241), op("EMPTY_TUPLE"), op("REDUCE"), op("STOP")]))
+    P.append(("ext4_called_popped", [op("PROTO", 2), op("EXT4", 70000), op("EMPTY_TUPLE"), op("REDUCE"), op("POP"), op("NONE"), op("STOP")]))
     # imports of every rule category next to calls of every callee shape (name, attribute of a variable, UNPICKLER.persistent_load, .update):
     # rules that look at one must not assume the shape of the other
     for mod, name in (("os", "system"), ("subprocess", "run"), ("builtins", "eval"), ("foo", "eval"), ("torch.hub", "load"), ("numpy", "load"), ("collections", "OrderedDict")):
